@@ -812,7 +812,11 @@ def integer(name, lo=None, hi=None):
     if r.mode == 'concrete':
         v = r.model.get(name, None)
         if v is None:
-            v = lo if lo is not None else 0
+            if r.rng is not None:
+                a = lo if lo is not None else (hi - 4 if hi is not None else 0)
+                v = r.rng.randint(a, min(hi, a + 6) if hi is not None else a + 6)
+            else:
+                v = lo if lo is not None else 0
         r.inputs[name] = int(v)
         return int(v)
     c = z3.Int(name)
@@ -827,7 +831,8 @@ def integer(name, lo=None, hi=None):
 def boolean(name):
     r = cur()
     if r.mode == 'concrete':
-        v = bool(r.model.get(name, False))
+        v = r.model.get(name, None)
+        v = bool(v) if v is not None else (r.rng.random() < 0.5 if r.rng is not None else False)
         r.inputs[name] = v
         return v
     c = z3.Bool(name)
@@ -841,7 +846,8 @@ def choose(name, n):
     if n <= 0:
         raise ValueError('choose from empty range')
     if r.mode == 'concrete':
-        v = int(r.model.get(name, 0))
+        v = r.model.get(name, None)
+        v = int(v) if v is not None else (r.rng.randrange(n) if r.rng is not None else 0)
         r.inputs[name] = v
         return min(max(v, 0), n - 1)
     if n == 1:
